@@ -214,6 +214,19 @@ def oracle(plan, obs):
         # Hook(...) / Tool(...) / the decorator / the application config raised for a declaration the documentation
         # allows: the hooks cannot run as declared
         return [('declaring the hooks failed: %s' % obs['rejected'], 'declaration_rejected')]
+    # the decorator form `@tool(priority=..., failsafe=..., arg=...)`: Tool.__call__ must leave `on` = True and every
+    # keyword argument, with its value, in the handler's _cp_config
+    for pg in plan['pages']:
+        for d in pg.get('decls', []):
+            if 'deco' in d and 'decorated' in obs:
+                got = obs['decorated'].get(d['id'])
+                want = dict(d['deco'])
+                want['on'] = True
+                same = isinstance(got, dict) and set(got) == set(want) and all(
+                    type(got[k]) is type(want[k]) and got[k] == want[k] for k in want)
+                if not same:
+                    bad.append(('the decorator %s.d%d(**%r) left %r in the handler\'s _cp_config'
+                                % (d['box'], d['id'], d['deco'], got), 'decorator_declaration_lost'))
     j = obs['j']
     groups = []        # (req, point, [ids], position)
     cur = None
@@ -676,8 +689,8 @@ def _run(ctx):
     ctx.extra['exhaustive_small_scope'] = len(small)
     # every channel a hook's point / priority / fail-safe flag can come from x boundary values
     check_plans(ctx, ca.targeted_plans(), label='decl-targeted')
-    check_plans(ctx, [ca.gen_plan(ctx.rng) for _ in range(ctx.budget(1500, 40000))], label='decl-random')
-    n = ctx.budget(3000, 100000)
+    check_plans(ctx, [ca.gen_plan(ctx.rng) for _ in range(ctx.budget(1300, 40000))], label='decl-random')
+    n = ctx.budget(2200, 100000)
     plans = [pc.gen_plan(ctx.rng, focus=(ctx.rng.randrange(8) if i % 2 else None)) for i in range(n)]
     check_plans(ctx, plans, label='random')
 
@@ -706,6 +719,8 @@ def search(ctx, around=None):
                     h[3] = 1 - h[3]
                 else:
                     h[4] = pc.gen_out(rng, len(c['pages']))
+                if len(h) > 5 and h[5] == 'cd' and (h[2] != 50 or h[3]):
+                    h[5] = 'c'          # a bare callable carries the defaults only
             elif k < 0.6:
                 pg['handler'] = pc.gen_handler(rng, len(c['pages']))
             elif k < 0.7:
